@@ -3,6 +3,7 @@ package main
 import (
 	"encoding/json"
 	"fmt"
+	"os"
 	"reflect"
 	"sort"
 	"strings"
@@ -65,6 +66,11 @@ func c20Replay(i int, raw json.RawMessage) Result {
 	l.Set("/s.jet", "x")
 	set := jet.NewSet(l)
 	t, err := set.GetTemplate("/w.jet")
+	if i == 0 && os.Getenv("VERIF_TRACE") == "" {
+		if r := c20AfterExecute(); r != nil {
+			return *r
+		}
+	}
 	reject := len(v.Pre) == 1 && v.Pre[0] == "REJECT" // not a production of the grammar: the parser should refuse it
 	if err != nil {
 		if reject {
@@ -142,4 +148,94 @@ func c20Replay(i int, raw json.RawMessage) Result {
 
 func init() {
 	commands["replay-C20"] = func(a []string) int { return replayLoop(a[0], a[1], c20Replay) }
+}
+
+// c20Print: what one walk of t sees, node by node (type, position, text).
+func c20Print(t *jet.Template) (out []string, panicked interface{}) {
+	defer func() { panicked = recover() }()
+	utils.Walk(t, utils.VisitorFunc(func(vc utils.VisitorContext, n jet.Node) {
+		if len(out) > 100000 {
+			panic("walk does not end")
+		}
+		out = append(out, fmt.Sprintf("%T@%d %s", n, n.Position(), n.String()))
+		vc.Visit(n)
+	}))
+	return out, nil
+}
+
+// c20AfterExecute: history probe. The nodes Walk reaches are those of the parsed template - before and after the
+// template was executed (once, twice), whatever the executed calls did with their arguments. Executions of a fixed
+// catalogue only (arbitrary generated templates may recurse without bound).
+func c20AfterExecute() *Result {
+	argLists := []string{"", "1", "1, 2", "1, 2, 3", "1, 2, 3, 4", "1, 2, 3, 4, 5", "1, 2, 3, 4, 5, 6", "1, 2, 3, 4, 5, 6, 7", "1, 2, 3, 4, 5, 6, 7, 8"}
+	srcs := []string{}
+	for _, a := range argLists {
+		for _, fn := range []string{"f", "g"} {
+			colon := ""
+			if a != "" {
+				colon = ": " + a
+			}
+			srcs = append(srcs,
+				`{{ "p" | `+fn+colon+` }}`,
+				`{{ "p" | `+fn+`(`+a+`) }}`,
+				`{{ `+fn+`(`+a+`) }}`,
+				`{{ "p" | `+fn+colon+` | `+fn+colon+` }}`)
+			if a != "" {
+				srcs = append(srcs, `{{ "p" | `+fn+`: _, `+a+` }}`, `{{ "p" | `+fn+`(`+a+`, _) }}`)
+			}
+		}
+	}
+	srcs = append(srcs,
+		`{{ block b(x=1, y="s") }}[{{ x }}{{ y }}{{ yield content }}]{{ end }}{{ yield b(x=2) content }}c{{ end }}{{ yield b(y=3, x=4) }}`,
+		`{{ range i, v := xs }}{{ i }}={{ v | f: i, v, 1 }}{{ else }}none{{ end }}`,
+		`{{ if len(xs) > 2 && isset(xs[1]) }}{{ xs[1:] | f: xs[:2], xs[1:2] }}{{ else if m.k }}k{{ else }}e{{ end }}`,
+		`{{ try }}{{ xs[9] }}{{ catch e }}{{ "c" | f: e, 1, 2 }}{{ end }}{{ include "/s.jet" m }}{{ return m.k ? f(1,2,3) : g(1) }}`,
+		`{{ a := map("k", 1, "l", 2) }}{{ s := slice(1, 2, 3) }}{{ a.k + s[0] | f: a, s, s[1] }}{{ a["l"] = 5 }}{{ a.l }}`,
+		`{{ "x" | upper | f: "a", "b", "c" | raw }}{{ -xs[0] | g: !m.k, 1 }}{{ isset(m.k, xs) ? "y" : "n" }}`,
+		`{{ "p" | m.fn: 1, 2, 3 }}{{ "p" | m.fn: 1, 2, 3, 4, 5 }}{{ exec "/s.jet" m }}`)
+	for k, src := range srcs {
+		l := jet.NewInMemLoader()
+		l.Set("/w.jet", src)
+		l.Set("/s.jet", `s{{ "q" | f: ., 2, 3 }}`)
+		set := jet.NewSet(l)
+		f := jet.Func(func(a jet.Arguments) reflect.Value {
+			n := a.NumOfArguments()
+			s := fmt.Sprint(n)
+			for i := 0; i < n; i++ {
+				s += fmt.Sprint(" ", a.IsSet(i), a.Get(i))
+			}
+			return reflect.ValueOf(s)
+		})
+		set.AddGlobalFunc("f", f)
+		set.AddGlobal("g", func(a ...interface{}) string { return fmt.Sprint(a...) })
+		t, err := set.GetTemplate("/w.jet")
+		if err != nil {
+			continue // not a form of the grammar
+		}
+		before, p := c20Print(t)
+		if p != nil {
+			continue // judged by the vectors
+		}
+		text := t.Root.String()
+		outs := []string{}
+		for round := 1; round <= 2; round++ {
+			var b strings.Builder
+			vars := jet.VarMap{}
+			vars.Set("xs", []int{3, 4, 5})
+			vars.Set("m", map[string]interface{}{"k": true, "fn": f})
+			err := safeExecute(t, &b, vars, nil)
+			outs = append(outs, fmt.Sprintf("%q err=%v", b.String(), err != nil))
+			after, p := c20Print(t)
+			obs := strings.Join(after, "\n")
+			if p != nil {
+				obs = fmt.Sprint("panic: ", p)
+			}
+			if want := strings.Join(before, "\n"); obs != want || t.Root.String() != text {
+				return &Result{Sig: map[string]interface{}{"kind": "changed-by-execution", "involves": "history"}, Key: fmt.Sprintf("history-%d", k),
+					Observed: obs + "\n" + t.Root.String(), Expected: want + "\n" + text,
+					Detail: fmt.Sprintf("Walk on %s after %d execution(s) no longer reaches the nodes of the parsed template (outputs %v)", src, round, outs)}
+			}
+		}
+	}
+	return nil
 }
